@@ -1,10 +1,11 @@
 /-
-  C06 — wire format of MAC commands (and the frame headers, see below) matches an independently written,
-  table-driven description (LW.Spec.Mac: bit-offset layout tables over the little-endian payload integer,
-  generic pack/unpack), not the library's own inverse.
+  C06 — wire format of MAC commands and of the frames (MHDR, FHDR / FCtrl, join-request, join-accept, rejoin-requests,
+  CFList) matches an independently written, table-driven description (LW.Spec.Mac and LW.Spec.Layout: bit-offset layout
+  tables over the little-endian integer, generic pack/unpack), not the library's own inverse.
 -/
 import LW.Proofs.MacSpec
 import LW.Generated.Registry
+import LW.Proofs.Layout
 namespace LW.C06
 open LW Outcome MacSpec
 
@@ -48,7 +49,33 @@ set_option maxRecDepth 100000 in
 theorem C06_registry : ∀ up : Bool, ∀ cid : Fin 256, Generated.registry.lookup up cid.val = Spec.registry.lookup up cid.val := by
   decide
 
+/-- Frames, encoding: for every frame value the layout tables assign bytes to (MHDR MType / Major; FHDR = DevAddr | FCtrl bits |
+FCnt mod 2^16 as one 56-bit little-endian integer, then FOpts, FPort, FRMPayload; join-request; join-accept with DLSettings bits,
+RxDelay and both CFList kinds; rejoin-request types 0 / 2 and 1; MIC last) the encoder produces exactly these bytes -/
+theorem C06_frame_layout (f : PHY) (sb : Bytes) (h : Spec.frameBytes f = some sb) : f.enc = ok sb :=
+  LayoutProofs.frame_layout f sb h
+
+/-- Frames, decoding: the bytes the layout tables prescribe for a frame decode to that frame (as seen over the wire) -/
+theorem C06_frame_decode (f : PHY) (sb : Bytes) (h : Spec.frameBytes f = some sb) (hs : Spec.shapeOK f = true) :
+    PHY.dec sb = ok (Spec.wire f) :=
+  FrameRT.phy_enc_dec f sb (LayoutProofs.frame_layout f sb h) hs
+
+/-- … and every accepted byte string (reserved MHDR bits zero) IS the layout of the frame it decodes to: the decoded field values
+are the fields the tables read out of the input -/
+theorem C06_frame_fields (bs : Bytes) (f : PHY) (hd : PHY.dec bs = ok f) (hrfu : (bs.getD 0 0) &&& 0x1c#8 = 0#8)
+    (sb : Bytes) (h : Spec.frameBytes f = some sb) : sb = bs := by
+  have h1 := LayoutProofs.frame_layout f sb h
+  have h2 := FrameRT.phy_canonical bs f hd hrfu
+  rw [h1] at h2
+  exact MacRT.ok_inj h2
+
 /-! ### non-vacuity -/
+def sampleData : PHY :=
+  { mtype := 2, major := 0, mic := [1, 2, 3, 4], payload := some (.mac { devAddr := 0x01020304#32, fCtrl := { adr := true, ack := true }, fCnt := 0x10007#32, fOpts := [.cmd { cid := 2, payload := none }] } (some 1) [.data [0xaa, 0xbb]]) }
+example : Spec.frameBytes sampleData
+    = some [0x40, 0x04, 0x03, 0x02, 0x01, 0xa1, 0x07, 0x00, 0x02, 0x01, 0xaa, 0xbb, 1, 2, 3, 4] := by decide
+example : Spec.frameBytes { mtype := 0, major := 0, mic := [9, 9, 9, 9], payload := some (.joinReq 0x0102030405060708#64 0x1112131415161718#64 0x2122#16) }
+    = some [0x00, 8, 7, 6, 5, 4, 3, 2, 1, 0x18, 0x17, 0x16, 0x15, 0x14, 0x13, 0x12, 0x11, 0x22, 0x21, 9, 9, 9, 9] := by decide
 example : Spec.enc (.rxParamSetupReq 868100000#32 false 3 2) = some [0x23, 0x28, 0x76, 0x84] := by decide
 example : (Kind.dec0 .devStatusAns [0x10, 0xff]).toOption = some (.devStatusAns 0x10 (-1)) := by decide
 
